@@ -185,7 +185,18 @@ print("OBS=" + repr(obs))
 
 
 def free_run(arg):
+    """one free-running execution on real processes.  "blocked" is a verdict about the code, not
+    about the machine: an attempt that does not finish within the short timeout is repeated once
+    with a 15 times longer one (start-up of 1 + nw interpreters took more than 6 s on a loaded
+    machine in 2 of 2760 runs) before it is reported as blocked."""
     nw, calls, timeout = arg
+    out = _free_run_once(nw, calls, timeout)
+    if out == repr(("blocked",)):
+        out = _free_run_once(nw, calls, 15.0 * timeout)
+    return out
+
+
+def _free_run_once(nw, calls, timeout):
     p = subprocess.Popen(
         [sys.executable, "-c", FREE_SRC, json.dumps([nw, calls])],
         stdout=subprocess.PIPE, stderr=subprocess.DEVNULL, start_new_session=True,
